@@ -10,6 +10,7 @@ import PyYetiVerif.Props.C13Values
 import PyYetiVerif.Props.C13Uset
 import PyYetiVerif.Props.C13Set
 import PyYetiVerif.Props.C13ValuesTab
+import PyYetiVerif.Props.C13SetIff
 #print axioms PyYetiVerif.C13.thru_roundtrip
 #print axioms PyYetiVerif.C13.thru_maximal
 #print axioms PyYetiVerif.C13.nasints_layout
@@ -79,6 +80,10 @@ import PyYetiVerif.Props.C13ValuesTab
 #print axioms PyYetiVerif.C13.uset_bulk_roundtrip_labels_full
 #print axioms PyYetiVerif.C13.set_header_split_fails
 #print axioms PyYetiVerif.C13.set_roundtrip_iff_partial
+#print axioms PyYetiVerif.C13.set_header_split1_fails
+#print axioms PyYetiVerif.C13.set_item_cut_reads
+#print axioms PyYetiVerif.C13.set_item_cut_fails
+#print axioms PyYetiVerif.C13.set_roundtrip_iff
 #print axioms PyYetiVerif.C13.dmig_field_fits
 #print axioms PyYetiVerif.C13.dmig_terms_in_range
 #print axioms PyYetiVerif.C13.tabled1_all_doubles
